@@ -84,7 +84,11 @@ def _case(draw):
              "tc": draw(st.sampled_from([False, False, True])), "lit": draw(st.sampled_from(["json", "json", "py", "js-undefined"]))}
     wrap = draw(st.lists(st.sampled_from(WRAPS), max_size=3))
     trunc = draw(st.sampled_from([None] * 9 + [3, 10, 25]))
-    return {"fields": fields, "inst": inst, "sem": sem, "style": style, "wrap": wrap, "trunc": trunc, "order": draw(_order()), "raw": None}
+    pre = None
+    if draw(st.integers(0, 3)) == 0:
+        other = {nm: draw(_value(t)) for nm, t in fields}
+        pre = [tj.write(other, {}), tj.write(inst, {"kq": "", "tc": True}), "```json\n" + tj.write(other, {}) + "\n```", "{ not json at all", ""][:draw(st.integers(1, 5))]
+    return {"fields": fields, "inst": inst, "sem": sem, "style": style, "wrap": wrap, "trunc": trunc, "order": draw(_order()), "raw": None, "pre": pre}
 
 
 def _order():
@@ -243,8 +247,14 @@ def judge(case):
     d = {"raw": raw[:400], "fields": case["fields"], "order": case["order"]}
     try:
         chap = Chaperone(strategies=order, silent=True)
+        chap2 = Chaperone(strategies=order, silent=True)
+        for other in case.get("pre") or []:
+            # earlier folds on the same validators (other texts, same and another schema): results must not depend on them
+            chap.fold(other, schema)
+            chap2.fold_enhanced(other, schema)
+            chap2.fold_enhanced(other, _model([["name", "str"]]))
         r1 = chap.fold(raw, schema)
-        r2 = Chaperone(strategies=order, silent=True).fold_enhanced(raw, schema)
+        r2 = chap2.fold_enhanced(raw, schema)
     except Exception as e:
         out.fail("raise:%s:fold" % type(e).__name__, "folding raised %s: %s" % (type(e).__name__, str(e)[:150]), d)
         return out
